@@ -20,7 +20,7 @@ func init() {
 	register(&Prop{
 		ID: "C15", Level: "fault_enumeration",
 		Rule: "one case = a router with CustomRecoveryWithLogHandler(capturing handler, DefaultHandleRecovery) over all handler kinds, generated routes, request headers carrying unique secret tokens under credential-bearing names in canonical, lower-case and mixed capitalisation (drawn) next to ordinary headers, and a generated Updates/View program; for that configuration ALL combinations are enumerated of panic value (string, error, wrapped error, nil, custom type, http.ErrAbortHandler bare and wrapped, net.OpError with broken pipe / connection reset / other errno, directly or one wrapping layer down) x response progress at the time of the panic (nothing, header only, partial body, after a failed write) x panic site (route handler, route-specific middleware, no-route, no-method and options handlers), and a panic after every prefix of the Updates/View program run inside a handler. Oracle: ServeHTTP returns normally (ErrAbortHandler re-raised as the identical value); the simulated connection shows 500 iff nothing had been written and the value is not a broken-connection error, nothing at all for broken connections, an untouched partial response otherwise; exactly one diagnostic record naming route (or scope), parameters and request line and containing none of the secret values; afterwards the routes are unchanged, a follow-up request is served and a write issued under the scheduler completes (writer lock released, else deadlock). Non-trivial: every run (all combinations are executed); distinct = hash of (configuration, header capitalisation, program).",
-		Run:  runC15, Quick: 1200, Thorough: 100000,
+		Run:  runC15, Quick: 4000, Thorough: 480000,
 		Real: []string{"Recovery middleware (recovery.go)", "Router.Updates/View abort paths", "recorder ResponseWriter", "ServeHTTP dispatch"},
 		Stub: []string{"slog sink: capturing handler", "net/http connection: simulated connection", "handlers and middleware that panic on script"},
 	})
